@@ -84,6 +84,33 @@ impl TextSource for LitTexts {
 fn large_texts() -> Texts {
     Texts { name: "large-inputs".into(), items: crate::alphabet::large_inputs() }
 }
+/// two multi-line literals in one logical line: the first from the C12 shape space, the second fixed
+/// and already laid out as the default configuration wants it
+pub struct TwoLits(pub o3::C12Family);
+impl TextSource for TwoLits {
+    fn name(&self) -> String {
+        format!("two-ml-literals(lines<={})", self.0.max_lines)
+    }
+    fn len(&self) -> u64 {
+        use crate::runner::Family;
+        self.0.len() * 2
+    }
+    fn get(&self, idx: u64, buf: &mut String) {
+        let (text, _) = self.0.build(idx / 2);
+        // position 0 texts look like "begin\n  x := <lit><after>\nend;\n": splice a second literal in
+        let second = "'''\n      m\n      '''";
+        let t = if idx % 2 == 0 {
+            text.replacen("x := ", "x := f(", 1).replacen("\nend;", &format!("\n      , {second}.Trim(aaaaaa, bbbbbb));\nend;"), 1)
+        } else {
+            text.replacen("x := ", "x := ", 1).replacen("\nend;", &format!("\n      + {second}.Format([aaaaaa, bbbbbb]);\nend;"), 1)
+        };
+        // the first statement terminator belongs to the first literal's continuation: drop it
+        *buf = t.replacen(";\n      ,", "\n      ,", 1).replacen(";\n      +", "\n      +", 1);
+    }
+}
+fn two_lits() -> TwoLits {
+    TwoLits(o3::C12Family { max_lines: 1, cfgs: vec![cfg::DEFAULT], quotes: vec![3], positions: vec![0] })
+}
 fn lit_texts(max_lines: usize) -> LitTexts {
     LitTexts(o3::C12Family { max_lines, cfgs: vec![cfg::DEFAULT], quotes: vec![3, 5], positions: vec![0, 4] })
 }
@@ -603,6 +630,15 @@ fn literals_valid(x: &str) -> bool {
         t.kind != crate::refscan::Kind::Text(crate::refscan::TextKind::MultiLine) || o2::ml_lit(t.text(x)).value.is_some()
     })
 }
+fn wf_lits_box(f: TextOracle) -> TextOracle {
+    Box::new(move |x, c, ctx| {
+        if literals_valid(x) {
+            f(x, c, ctx)
+        } else {
+            ctx.count("skipped-invalid-literal");
+        }
+    })
+}
 fn wf_lits(f: fn(&str, &Cfg, &mut Ctx)) -> TextOracle {
     Box::new(move |x, c, ctx| {
         if literals_valid(x) {
@@ -992,6 +1028,7 @@ pub fn families(check: &str, tier: &str) -> Vec<Box<dyn Family>> {
                     seed_texts("c03", &wf_seeds(), &C_QUICK, f_c03),
                     tf("c03", lit_texts(2), &C_QUICK[..2], wf_lits(f_c03)),
                     deep_variants("c03", &g(1), 1, 12, &C_QUICK[..3], f_c03),
+                    tf("c03", two_lits(), &[cfg::DEFAULT, C_QUICK[1]], wf_lits(f_c03)),
                 ]
             } else {
                 vec![
@@ -1290,6 +1327,7 @@ pub fn families(check: &str, tier: &str) -> Vec<Box<dyn Family>> {
                     }
                 })),
                 sf("c11", &wf_seeds(), &bases[..nb], Box::new(move |s, c, ctx| o2::c11_dense(&s.text, ws, c, None, ctx))),
+                tf("c11lits", two_lits(), &bases[..1], wf_lits_box(Box::new(move |x, c, ctx| o2::c11_dense(x, ws, c, Some("multi-line-literals"), ctx)))),
             ]
         }
         "C13" => {
